@@ -168,6 +168,25 @@ func c06Unfamiliar(ctx *Ctx, i int, drv int) {
 			})
 		}
 	}
+	// (d) a long run of refused requests naming one wallet, then the owner's own request: refused
+	// requests leave no trace, so the owner is served as if they had never been sent
+	{
+		wallet := walletOf("w1")
+		for k := 0; k < 160; k++ {
+			sig := []string{"AAAA", "", signWalletStyle(keyFor("w2"), "pool_addNode", wallet, int64(k), []interface{}{nodeIDOf("c2")})}[k%3]
+			if k%4 == 3 {
+				a.pay.Withdraw(context.Background(), sig, wallet, a.nextNonce())
+			} else {
+				a.pay.AddNode(context.Background(), sig, wallet, a.nextNonce(), nodeIDOf("c2"))
+			}
+		}
+		n := a.nextNonce()
+		sig := signWalletStyle(keyFor("w1"), "pool_addNode", wallet, n, []interface{}{nodeIDOf("c2")})
+		if err := a.pay.AddNode(context.Background(), sig, wallet, n, nodeIDOf("c2")); err != nil {
+			mon = append(mon, fmt.Sprintf("c06-refused-left-trace: 160 requests naming wallet w1 were refused (garbage, empty and another key's signatures); the owner's own correctly signed pool_addNode right after them is refused too: %v", err))
+		}
+		log = append(log, "160 refused requests naming w1, then the owner's pool_addNode")
+	}
 	if len(mon) > 6 {
 		mon = mon[:6]
 	}
